@@ -66,6 +66,13 @@ Fixpoint sig_scale (c : T) (s : sig) : sig :=
   | SPair a b => SPair (sig_scale c a) (sig_scale c b)
   end.
 
+Fixpoint sig_scale_l (c : T) (s : sig) : sig :=      (* c * sigma, as written in proximal_composition *)
+  match s with
+  | SScal s => SScal (c * s)
+  | SVec v => SVec (map (fun a => c * a) v)
+  | SPair a b => SPair (sig_scale_l c a) (sig_scale_l c b)
+  end.
+
 (* ------------------------------------------------------------ norms, weighted *)
 Definition winner (w x y : list T) : T := wdot w x y.
 Definition wnormsq (w x : list T) : T := wdot w x x.
@@ -76,6 +83,12 @@ Definition wsum1 (w x : list T) : T := sumf (vmul w (map nabs x)).   (* |x|.inne
    Closed-form factories (proximal_operators.py).  [g : option (list T)] is the
    optional translation / prior argument.
    ========================================================================== *)
+Fixpoint vmap3 (f : T -> T -> T -> T) (x y z : list T) : list T :=
+  match x, y, z with
+  | a :: x', b :: y', c :: z' => f a b c :: vmap3 f x' y' z'
+  | _, _, _ => []
+  end.
+
 Definition gsub (x : list T) (g : option (list T)) : list T :=
   match g with Some g => vsub x g | None => x end.
 
@@ -92,6 +105,10 @@ Definition prox_cc_l1 (lam : T) (g : option (list T)) (s : T) (x : list T) : lis
   let diff := match g with Some g => vlin none_ x (- s) g | None => x end in
   map (fun d => d / (nmax (nabs d) lam / lam)) diff.
 
+(* ... with an element-valued step and g (after fix ff778b2): diff = x - sigma .* g *)
+Definition prox_cc_l1v (lam : T) (g : list T) (sv : list T) (x : list T) : list T :=
+  map (fun d => d / (nmax (nabs d) lam / lam)) (vmap3 (fun a gi si => a - si * gi) x g sv).
+
 (* proximal_l2(space, lam, g)(sigma): block soft threshold in the space norm *)
 Definition prox_l2 (w : list T) (lam : T) (g : option (list T)) (s : T) (x : list T) : list T :=
   let xn := wnorm w (gsub x g) in
@@ -103,12 +120,6 @@ Definition prox_l2 (w : list T) (lam : T) (g : option (list T)) (s : T) (x : lis
     | Some g => vlin (none_ - step) x step g
     end
   else match g with None => map (fun _ => nzero) x | Some g => g end.
-
-Fixpoint vmap3 (f : T -> T -> T -> T) (x y z : list T) : list T :=
-  match x, y, z with
-  | a :: x', b :: y', c :: z' => f a b c :: vmap3 f x' y' z'
-  | _, _, _ => []
-  end.
 
 (* proximal_l2_squared(space, lam, g)(sigma); sigma scalar or element.
    scalar: x/(1+2 s lam) + (2 s lam/(1+2 s lam)) g ; element: (x + s*2*lam*g)/(1+2 s lam) *)
@@ -136,10 +147,12 @@ Definition prox_box (lo hi : bound) (x : list T) : list T :=
   let y := match bvec n lo with Some l => vmap2 nmax x l | None => x end in
   match bvec n hi with Some h => vmap2 nmin y h | None => y end.
 
-(* proximal_huber(space, gamma)(sigma) on a non-product space *)
+(* proximal_huber(space, gamma)(sigma) on a non-product space (after fix bec7266):
+   x * factor,  factor = gamma/(gamma+sigma) where |x| <= gamma+sigma, else 1 - sigma/|x| *)
+Definition huber_factor (gamma s nrm : T) : T :=
+  if nleb nrm (gamma + s) then gamma / (gamma + s) else none_ - s / nrm.
 Definition prox_huber (gamma : T) (s : T) (x : list T) : list T :=
-  map (fun a => if nleb (nabs a) (gamma + s) then gamma / (gamma + s) * a
-                else a - s * nsign a) x.
+  map (fun a => a * huber_factor gamma s (nabs a)) x.
 
 (* proj_simplex(x, diameter): sort descending, running averages, last index
    with x_sor[j] - avg[j] >= 0, then max(x - avg[i], 0) *)
@@ -200,6 +213,15 @@ Definition prox_cc_l1_l2 (m d : nat) (lam : T) (g : option (list T)) (s : T) (x 
   let denom := map (fun a => nmax a lam / lam) (pw_norm m d diff) in
   concat (map (fun c => vdiv c denom) (chunks m d diff)).
 
+(* proximal_huber on a vector field X^d (after fix bec7266): every component times the pointwise factor *)
+Definition prox_huber_g (m d : nat) (gamma s : T) (x : list T) : list T :=
+  let factor := map (huber_factor gamma s) (pw_norm m d x) in
+  concat (map (fun c => vmul c factor) (chunks m d x)).
+
+(* IndicatorSumConstraint.proximal (after fix c7fdd8d): x + (sum_value - sum x)/size *)
+Definition prox_sumc (c : T) (x : list T) : list T :=
+  let off := none_ / of_Z (Z.of_nat (length x)) * (c - sumf x) in map (fun a => a + off) x.
+
 (* ============================================================================
    Calculus rules on prox factories (factory = step -> point -> result)
    ========================================================================== *)
@@ -216,9 +238,11 @@ Definition prox_arg_scaling (pf : factory) (c : T) : factory :=
     if neqb c nzero then Ok x
     else rmap (vscal (none_ / c)) (pf (sig_scale (c * c) s) (vscal c x)).
 
-(* proximal_quadratic_perturbation(prox, a, u)(sigma), scalar sigma:
+(* proximal_quadratic_perturbation(prox, a, u)(sigma):
    const = 1/sqrt(2 sigma a + 1);
-   const * proximal_arg_scaling(prox, const)(sigma) (const * x - sigma*const*u) *)
+   const * proximal_arg_scaling(prox, const)(sigma) (const * x - sigma*const*u)
+   scalar sigma, or an element-valued sigma (then const is an array and every product is element-wise; the
+   array-scaling branch of proximal_arg_scaling has no scaling == 0 shortcut) *)
 Definition prox_quad_pert (pf : factory) (a : T) (u : option (list T)) : factory :=
   fun s x =>
     if nltb a nzero then Err EValue else
@@ -226,18 +250,27 @@ Definition prox_quad_pert (pf : factory) (a : T) (u : option (list T)) : factory
     | SScal sg =>
         let c := none_ / nsqrt (sg * of_Z 2 * a + none_) in
         let inner := match u with
-                     | Some u => vlin c x (- (sg * c)) u
+                     | Some u => vsub (vscal c x) (vscal (sg * c) u)
                      | None => vscal c x end in
         rmap (vscal c) (prox_arg_scaling pf c s inner)
-    | _ => Err EOther
+    | SVec v =>
+        let c := map (fun sg => none_ / nsqrt (sg * of_Z 2 * a + none_)) v in
+        let inner := match u with
+                     | Some u => vsub (vmul c x) (vmul (vmul v c) u)
+                     | None => vmul c x end in
+        rmap (fun q => vmul c (vmul (map (fun ci => none_ / ci) c) q))
+             (pf (SVec (vmul v (vmul c c))) (vmul c inner))
+    | SPair _ _ => Err EOther
     end.
 
-(* proximal_convex_conj(prox)(sigma) = I - sigma * prox(1/sigma)(x/sigma), scalar sigma *)
+(* proximal_convex_conj(prox)(sigma) = I - sigma * prox(1/sigma)(x/sigma); sigma scalar or element-valued *)
 Definition prox_convex_conj (pf : factory) : factory :=
   fun s x =>
     match s with
     | SScal sg => rmap (fun q => vsub x (vscal sg q)) (pf (SScal (none_ / sg)) (vscal (none_ / sg) x))
-    | _ => Err EOther
+    | SVec v => let vi := map (fun sg => none_ / sg) v in
+                rmap (fun q => vsub x (vmul v q)) (pf (SVec vi) (vmul vi x))
+    | SPair _ _ => Err EOther
     end.
 
 (* combine_proximals(f1, f2)(sigma): scalar -> same step for all; sequence -> zip *)
@@ -255,7 +288,7 @@ Definition prox_composition (pf : factory) (ncols : nat) (A : list (list T)) (mu
   fun s x =>
     let ax := mvec A x in
     rmap (fun q => vadd x (vscal (none_ / mu) (mvec (transpose ncols A) (vsub q ax))))
-         (pf (sig_scale mu s) ax).
+         (pf (sig_scale_l mu s) ax).
 
 (* ============================================================================
    Functionals: leaves (default_functionals.py) and derived (functional.py)
@@ -272,7 +305,9 @@ Inductive leaf :=
 | FHuber (gamma : T)          (* Huber on a non-product space *)
 | FSimplex (diam : T)         (* IndicatorSimplex *)
 | FGroupL1 (m d : nat) (two : bool)      (* GroupL1Norm(X^d, exponent 2 | 1) *)
-| FGroupBall (m d : nat) (two : bool).   (* IndicatorGroupL1UnitBall(X^d, exponent 2 | inf) *)
+| FGroupBall (m d : nat) (two : bool)    (* IndicatorGroupL1UnitBall(X^d, exponent 2 | inf) *)
+| FHuberG (m d : nat) (gamma : T)        (* Huber on a vector field X^d *)
+| FSumC (c : T).                         (* IndicatorSumConstraint(sum_value = c) *)
 
 Definition needs_scalar (s : sig) (k : T -> res (list T)) : res (list T) :=
   match s with SScal sg => k sg | _ => Err EType end.
@@ -307,6 +342,8 @@ Definition leaf_val (k : leaf) (w x : list T) : ext :=
       Some (if two then sumf (vmul (firstn m w) (pw_norm m d x)) else wsum1 w x)
   | FGroupBall m d two =>
       ind (if two then forallb (fun a => nleb a none_) (pw_normsq m d x) else nleb (vmaxabs x) none_)
+  | FHuberG m d gamma => Some (sumf (vmul (firstn m w) (map (huber1 gamma) (pw_norm m d x))))
+  | FSumC c => ind (neqb (sumf x) c)
   end.
 
 (* f.proximal(sigma)(x): the binding of each functional class to its factory *)
@@ -332,6 +369,8 @@ Definition leaf_prox (k : leaf) (w : list T) (s : sig) (x : list T) : res (list 
   | FGroupBall m d two =>
       needs_scalar s (fun sg => Ok (if two then prox_cc_l1_l2 m d none_ None sg x
                                     else prox_cc_l1 none_ None sg x))
+  | FHuberG m d gamma => needs_scalar s (fun sg => Ok (prox_huber_g m d gamma sg x))
+  | FSumC c => Ok (prox_sumc c x)
   end.
 
 (* functional expression trees (functional.py + SeparableSum) *)
